@@ -113,6 +113,51 @@ func (m *dmutex) Unlock() {
 }
 `
 
+const csmapRangeSrc = `package csmap
+
+import (
+	"fmt"
+	"hash/fnv"
+	"sort"
+)
+
+// VerifSalt selects the (deterministic) iteration order of Range in the simulation build.
+var VerifSalt uint64
+
+func (m *CsMap[K, V]) Range(f func(key K, value V) (stop bool)) {
+	type kv struct {
+		k K
+		v V
+		h uint64
+		s string
+	}
+	var all []kv
+	for i := range m.shards {
+		shard := m.shards[i]
+		shard.RLock()
+		shard.items.Iter(func(k K, v V) (stop bool) {
+			s := fmt.Sprint(k)
+			h := fnv.New64a()
+			fmt.Fprintf(h, "%d|%s", VerifSalt, s)
+			all = append(all, kv{k, v, h.Sum64(), s})
+			return false
+		})
+		shard.RUnlock()
+	}
+	sort.Slice(all, func(i, j int) bool {
+		if all[i].h != all[j].h {
+			return all[i].h < all[j].h
+		}
+		return all[i].s < all[j].s
+	})
+	for _, t := range all {
+		if f(t.k, t.v) {
+			return
+		}
+	}
+}
+`
+
 func thirdParty(modcache, out string) {
 	_ = os.RemoveAll(out)
 	gsrc := filepath.Join(modcache, "github.com/couchbase/gocbcore/v10@v10.5.2")
@@ -182,6 +227,20 @@ var VerifHTTPDial func(network, addr string) (net.Conn, error)
 	s = strings.ReplaceAll(s, "sync.Mutex", "dmutex")
 	s += durableMutexSrc
 	if err := os.WriteFile(eb, []byte(s), 0o644); err != nil {
+		die("%v", err)
+	}
+	// concurrent-swiss-map: Range hands items to the callback through per-shard producer goroutines,
+	// so its order depends on goroutine scheduling. In the simulation build it iterates a snapshot in
+	// an order that is a pure function of (keys, VerifSalt); the salt is drawn from the run's tape.
+	csrc := filepath.Join(modcache, "github.com/mhmtszr/concurrent-swiss-map@v1.0.8")
+	cdst := filepath.Join(out, "csmap")
+	copyTree(csrc, cdst)
+	patchFile(filepath.Join(cdst, "concurrent_swiss_map.go"),
+		[2]string{
+			"func (m *CsMap[K, V]) Range(f func(key K, value V) (stop bool)) {\n",
+			"func (m *CsMap[K, V]) rangeOriginal(f func(key K, value V) (stop bool)) {\n",
+		})
+	if err := os.WriteFile(filepath.Join(cdst, "verif_range.go"), []byte(csmapRangeSrc), 0o644); err != nil {
 		die("%v", err)
 	}
 	if err := os.WriteFile(filepath.Join(edst, "go.mod"), []byte("module github.com/asaskevich/EventBus\n\ngo 1.20\n"), 0o644); err != nil {
